@@ -481,3 +481,92 @@ theorem replay_congr (s s' : Store) (rs : List Record)
         rcases List.mem_cons.1 hr' with rfl | hin
         · exact absurd hk'.symm hk
         · exact ⟨r', hin, hk'⟩
+
+/-! ### a complete head followed by an arbitrary (possibly short) tail -/
+
+theorem readAt_shift (pre x tail : Bytes) (n : Nat) :
+    readAt (pre ++ (x ++ tail)) (pre.length + x.length) n = readAt tail 0 n := by
+  unfold readAt
+  have : (pre ++ (x ++ tail)).drop (pre.length + x.length) = tail := by
+    rw [← List.append_assoc]
+    exact List.drop_left' (by simp)
+  rw [this, List.drop_zero]
+
+/-- the head is complete: the step is determined by what the body read returns -/
+theorem scanStep_head (pre tail : Bytes) (f l ts crc : Nat) (hf : f < 4294967296) (hl : l < 4294967296) :
+    scanStep (pre ++ (encodeHead f l ts crc ++ tail)) pre.length =
+      match readAt tail 0 l with
+      | none => .eof
+      | some bb =>
+        match decodeBody bb with
+        | .eof => .eof
+        | .err e => .err e
+        | .ok k v => .deliver ⟨f, k, v⟩ (FileUtilsAlign (GoSem.uadd 4294967296 18 l)) := by
+  unfold scanStep
+  have hhead := readAt_exact pre (encodeHead f l ts crc) tail pre.length rfl
+    (by intro h0; have := congrArg List.length h0; simp at this)
+  rw [encodeHead_length] at hhead
+  rw [hhead]
+  have hflg : leVal ((encodeHead f l ts crc).take 4) = f := by
+    unfold encodeHead
+    rw [List.append_assoc, List.append_assoc, List.take_left' (leBytes_length _ _), leVal_leBytes]
+    exact Nat.mod_eq_of_lt hf
+  have hlen : leVal (((encodeHead f l ts crc).drop 4).take 4) = l := by
+    unfold encodeHead
+    rw [List.append_assoc, List.append_assoc, List.drop_left' (leBytes_length _ _),
+      List.take_left' (leBytes_length _ _), leVal_leBytes]
+    exact Nat.mod_eq_of_lt hl
+  simp only [hflg, hlen]
+  have := readAt_shift pre (encodeHead f l ts crc) tail l
+  rw [encodeHead_length] at this
+  rw [this]
+  cases readAt tail 0 l with
+  | none => rfl
+  | some bb =>
+    simp only
+    cases decodeBody bb <;> rfl
+
+/-- what `FileUtilsRead` hands to the rlp decoder when the record was cut at byte `c > 18`:
+    the bytes that made it to the file, then the zero bytes `make` put into the buffer -/
+def tornBody (r : Record) (c : Nat) : Bytes :=
+  (bodyOf r).take (c - 18) ++ zeros ((bodyOf r).length - (c - 18))
+
+theorem tornBody_ne_nil (r : Record) (c : Nat) (hc : 18 < c) : tornBody r c ≠ [] := by
+  have hb := bodyOf_ne_nil r
+  unfold tornBody
+  intro h
+  have h1 := (List.append_eq_nil_iff.1 h).1
+  have : ((bodyOf r).take (c - 18)).length = 0 := by rw [h1]; rfl
+  rw [List.length_take] at this
+  have : (bodyOf r).length = 0 := by omega
+  exact hb (List.eq_nil_of_length_eq_zero this)
+
+theorem tornBody_complete (r : Record) (c : Nat) (hc : 18 + (bodyOf r).length ≤ c) : tornBody r c = bodyOf r := by
+  unfold tornBody
+  rw [List.take_of_length_le (by omega)]
+  have : (bodyOf r).length - (c - 18) = 0 := by omega
+  rw [this]; simp [zeros]
+
+/-- the body read of a record cut at byte `c > 18` -/
+theorem readAt_torn (r : Record) (zs : Bytes) (c : Nat) (hc : 18 < c) :
+    readAt (((bodyOf r) ++ zs).take (c - 18)) 0 (bodyOf r).length = some (tornBody r c) := by
+  have hb := bodyOf_ne_nil r
+  have hbl : (bodyOf r).length ≠ 0 := fun h => hb (List.eq_nil_of_length_eq_zero h)
+  unfold readAt
+  rw [if_neg hbl, List.drop_zero, List.take_take]
+  have e1 : List.take (min (bodyOf r).length (c - 18)) (bodyOf r ++ zs) = (bodyOf r).take (c - 18) := by
+    rw [List.take_append_of_le_length (Nat.min_le_left _ _)]
+    by_cases h : c - 18 ≤ (bodyOf r).length
+    · rw [Nat.min_eq_right h]
+    · rw [Nat.min_eq_left (by omega), List.take_of_length_le (Nat.le_refl _), List.take_of_length_le (by omega)]
+  rw [e1]
+  have hne : (bodyOf r).take (c - 18) ≠ [] := by
+    intro h
+    have : ((bodyOf r).take (c - 18)).length = 0 := by rw [h]; rfl
+    rw [List.length_take] at this
+    omega
+  simp only [hne, if_false]
+  unfold tornBody
+  rw [List.length_take]
+  have : (bodyOf r).length - min (c - 18) (bodyOf r).length = (bodyOf r).length - (c - 18) := by omega
+  rw [this]
